@@ -158,11 +158,18 @@ def run(prog, rep, tier='quick'):
         k = kcands[0]
         detail = 'rho is not updated as (1-|%s|^2)*rho' % k
 
+        def is_abs_sq(e, depth=0):
+            # |k|**2, possibly through a named temporary
+            if isinstance(e, ast.Name) and depth < 3:
+                return any(is_abs_sq(v, depth + 1) for v in assigns.get(e.id, []))
+            return (isinstance(e, ast.BinOp) and isinstance(e.op, ast.Pow) and isinstance(e.right, ast.Constant)
+                    and e.right.value in (2, 2.0) and isinstance(e.left, ast.Call)
+                    and getattr(e.left.func, 'id', getattr(e.left.func, 'attr', None)) in ('abs', 'absolute')
+                    and isinstance(e.left.args[0], ast.Name) and rep_name(e.left.args[0].id) == k)
+
         def is_one_minus_sq(e):
             return (isinstance(e, ast.BinOp) and isinstance(e.op, ast.Sub) and isinstance(e.left, ast.Constant) and e.left.value in (1, 1.0)
-                    and isinstance(e.right, ast.BinOp) and isinstance(e.right.op, ast.Pow) and isinstance(e.right.right, ast.Constant)
-                    and e.right.right.value in (2, 2.0) and isinstance(e.right.left, ast.Call) and isinstance(e.right.left.func, ast.Name)
-                    and e.right.left.func.id == 'abs' and isinstance(e.right.left.args[0], ast.Name) and e.right.left.args[0].id == k)
+                    and is_abs_sq(e.right))
 
         def resolves_factor(e, depth=0):
             if is_one_minus_sq(e):
